@@ -17,7 +17,7 @@ RULE = ("(i) wrapper towers of depth 0..6 over {functools.partial (positional / 
         "(depth 1..4). (ii) registration sequences (by function, code object, decorator form, partial) over three code objects "
         "two of which are equal-but-distinct (same source compiled twice), for elaborate_frame and unwrap_context_generator; "
         "model = dict keyed by identity, latest registration wins. (iii) the FULL product hide x hide_line x prune x {no "
-        "elaborate, returns None, returns a replacement} x {direct, decorator, nested-name} = 72 combinations (exhaustive), "
+        "elaborate, returns None, returns a replacement, returns PRUNE, returns [], returns [item, next_inner]} x {direct, decorator, nested-name} = 144 combinations (exhaustive), "
         "observed on real frames through extract_since. (iv) IdentityDict against an identity-keyed list model under generated "
         "operation sequences over keys that are == but distinct, unhashable, or change hash. CPython 3.9-3.12. Non-trivial: "
         "tower of depth >= 3 mixing >= 2 wrapper kinds; registration sequence in which exactly one of the equal pair is "
@@ -105,7 +105,8 @@ def idict_ops():
 def customize_product():
     out = []
     for hide, hl, prune, ek, form in itertools.product([False, True], [False, True], [False, True],
-                                                        ["none", "returns_none", "returns_repl"],
+                                                        ["none", "returns_none", "returns_repl", "returns_prune", "returns_empty_list",
+                                                         "returns_insert"],
                                                         ["direct", "decorator", "nested"]):
         out.append({"hide": hide, "hide_line": hl, "prune": prune, "elaborate": ek, "form": form})
     return out
